@@ -731,3 +731,7 @@ mod test {
         });
     }
 }
+
+#[cfg(kani)]
+#[path = "/verif/harness/may_queue/spmc.rs"]
+mod verif_kani;
